@@ -71,6 +71,10 @@ CLAIMS = {
          "Structural necessary conditions of the exchange evaluation: every attack pattern is paired with the right piece kinds and pawn colour; attackers are tried in non-decreasing value order with the king last and only when no enemy attacker remains; each branch books the tested kind's value, removes exactly one attacker bit and exits by the same parity rule; diagonals are re-scanned after pawn/bishop/queen captures and lines after rook/queen captures with the updated occupancy; mover and en-passant victim leave the occupancy at the right squares; promotion value is added to gain and risk; consumers pass a threshold <= 0 and prune only losing captures. Equality with the capture-sequence minimax for concrete positions and monotonicity in the threshold are not decided.",
          "Trusts go/ssa; PieceValues literal must be immutable (checked).",
          "DESIGN.md §3 C18, §3.0"),
+ "C13": ("ownership/effect analysis of the output sink, channel typestate (one make, at most one close, sends ordered before the close), goroutine join pairing on every path, dominance of the bestmove/readyok ordering, path analysis of the interrupt goroutine, captured-variable race analysis over closure bindings, shutdown-order dominance",
+         "Safety skeleton only (liveness under all interleavings is not a static property and is not claimed): one writer of the real sink and one Write per complete line; each channel is made once, closed at most once after all senders, stop/searchFin never sent on, ponderHit sent at most once on a buffered channel; every goroutine is joined on every path; Search.Go -> close(searchFin) -> Wait -> exactly one bestmove on every path; the interrupt goroutine always closes stop, can always leave through searchFin, and returns on closed input; no variable is written by a goroutine and touched by its spawner before Wait; pipeline channels are closed in order. A violation implies a command timing with a torn/missing/duplicate answer, a panic on a channel, a leaked goroutine or a data race.",
+         "Trusts go/ssa and the Go memory model facts about WaitGroup.Wait and channel close; deadlock-freedom under all schedules is not decided.",
+         "DESIGN.md §3 C13"),
 }
 
 NOT_YET = "no static rule of DESIGN.md §3 for this property is built in this revision yet; not claimed"
